@@ -439,6 +439,64 @@ class Fn:
                 out.append((bi, si, k, node))
         return out
 
+    def reaching_defs(self, l, pos):
+        """Definition sites (bb, idx|None) of local l that reach the read at pos ('bb:idx' / 'bb:T').
+        idx None = call terminator. ('entry',) if the value on entry (parameter / undefined) reaches."""
+        if pos is None:
+            return None
+        key = (l, pos)
+        cache = self.__dict__.setdefault('_rdcache', {})
+        if key in cache:
+            return cache[key]
+        bb, ix = pos.split(':')
+        bb = int(bb)
+        defs = {}
+        for (b2, s2, k, node) in self.whole_defs(l):
+            defs.setdefault(b2, []).append(s2)
+        out = set()
+        seen = set()
+
+        def scan_block(b, upto):
+            """last def of l in block b (terminator def wins over statement defs)."""
+            ds = defs.get(b, [])
+            if None in ds:
+                return (b, None)
+            st = [x for x in ds if x is not None]
+            if st:
+                return (b, max(st))
+            return None
+        upto = None if ix == 'T' else int(ix)
+        if ix == 'T':
+            # read by the terminator: all statements of the block come before it; the terminator's own dest does not
+            d = None
+            cands = [s2 for s2 in defs.get(bb, []) if s2 is not None]
+            if cands:
+                d = (bb, max(cands))
+        else:
+            cands = [s2 for s2 in defs.get(bb, []) if s2 is not None and s2 < upto]
+            d = (bb, max(cands)) if cands else None
+        if d is not None:
+            out.add(d)
+        else:
+            stack = list(self.pred[bb])
+            if bb == 0:
+                out.add(('entry',))
+            while stack:
+                b = stack.pop()
+                if b in seen:
+                    continue
+                seen.add(b)
+                dd = scan_block(b, None)
+                if dd is not None:
+                    out.add(dd)
+                    continue
+                if b == 0:
+                    out.add(('entry',))
+                stack.extend(self.pred[b])
+        res = frozenset(out)
+        cache[key] = res
+        return res
+
     def calls(self):
         """Yield (bb, term, Callee) for every direct call in reachable non-cleanup blocks."""
         for bi, b in enumerate(self.blocks):
@@ -655,7 +713,7 @@ class Prov:
         self.fn = fn
         self.max_depth = max_depth
 
-    def operand(self, op, depth=0):
+    def operand(self, op, depth=0, pos=None):
         k = op_const(op)
         if k is not None:
             if k.get('fn'):
@@ -670,10 +728,10 @@ class Prov:
         p = op_place(op)
         if p is None:
             return ('unknown',)
-        return self.place(p, depth)
+        return self.place(p, depth, pos)
 
-    def place(self, p, depth=0):
-        base = self.local(p['l'], depth)
+    def place(self, p, depth=0, pos=None):
+        base = self.local(p['l'], depth, pos)
         for e in p['p']:
             if e == '*':
                 if base[0] == 'ref':
@@ -689,7 +747,7 @@ class Prov:
                     else:
                         base = ('field', base, nm, last_seg(e.get('o')))
                 elif 'i' in e:
-                    base = ('index', base, self.local(e['i'], depth))
+                    base = ('index', base, self.local(e['i'], depth, pos))
                 elif 'ci' in e:
                     base = ('index', base, ('const', 'usize', -e['ci'] if e.get('from_end') else e['ci']))
                 elif 'dc' in e:
@@ -715,11 +773,11 @@ class Prov:
             self.fn._atm = c
         return l in c
 
-    def local(self, l, depth=0):
+    def local(self, l, depth=0, pos=None):
         fn = self.fn
         if self._addr_taken_mut(l) and not (1 <= l <= fn.arg_count) and \
                 fn.local_ty(l).startswith(('[', 'u', 'i', 'bool', '(')):
-            return ('local', l, fn.local_name(l))
+            return ('local', l, fn.local_name(l), pos)
         if 1 <= l <= fn.arg_count:
             # a parameter that is never reassigned as a whole
             if not fn.whole_defs(l):
@@ -727,28 +785,50 @@ class Prov:
         defs = fn.whole_defs(l)
         partial = [d for d in fn.defs.get(l, []) if d not in defs]
         if len(defs) == 1 and not partial and depth < self.max_depth:
+            cache = self.__dict__.setdefault('_lcache', {})
+            if l in cache:
+                return cache[l]
             bi, si, k, node = defs[0]
+            npos = '%d:%s' % (bi, si if si is not None else 'T')
             if k == 'assign':
-                return self.rvalue(node['rv'], depth + 1)
+                r = self.rvalue(node['rv'], depth + 1, npos)
+                cache[l] = r
+                return r
             if k == 'call':
                 c = callee_of(node)
                 name = strip_generics(c['path']) if c else '<indirect>'
-                args = [self.operand(a, depth + 1) for a in node['args']]
-                return self._simplify_call(name, args, node, c)
-        return ('local', l, fn.local_name(l))
+                args = [self.operand(a, depth + 1, npos) for a in node['args']]
+                r = self._simplify_call(name, args, node, c)
+                cache[l] = r
+                return r
+        return ('local', l, fn.local_name(l), pos)
 
     def def_exprs(self, l):
         """[(bb, expr)] for every whole definition of local l (one level, operands fully resolved)."""
         out = []
         for (bi, si, k, node) in self.fn.whole_defs(l):
+            npos = '%d:%s' % (bi, si if si is not None else 'T')
             if k == 'assign':
-                out.append((bi, self.rvalue(node['rv'], 1)))
+                out.append((bi, self.rvalue(node['rv'], 1, npos)))
             elif k == 'call':
                 c = callee_of(node)
                 name = strip_generics(c['path']) if c else '<indirect>'
-                args = [self.operand(a, 1) for a in node['args']]
+                args = [self.operand(a, 1, npos) for a in node['args']]
                 out.append((bi, self._simplify_call(name, args, node, c)))
         return out
+
+    def def_expr_at(self, l, bi, si):
+        """Expression of the definition of l at statement (bi, si) (si None = call terminator)."""
+        for (b2, s2, k, node) in self.fn.whole_defs(l):
+            if b2 == bi and s2 == si:
+                npos = '%d:%s' % (bi, si if si is not None else 'T')
+                if k == 'assign':
+                    return self.rvalue(node['rv'], 1, npos)
+                if k == 'call':
+                    c = callee_of(node)
+                    name = strip_generics(c['path']) if c else '<indirect>'
+                    return self._simplify_call(name, [self.operand(a, 1, npos) for a in node['args']], node, c)
+        return None
 
     def expand(self, e, depth=0, seen=None):
         """All alternative expressions of e with multi-def locals expanded one level per local
@@ -778,33 +858,33 @@ class Prov:
             return a[1] if a[0] == 'ref' else ('deref', a)
         return ('call', name, args, node)
 
-    def rvalue(self, rv, depth):
+    def rvalue(self, rv, depth, pos=None):
         r = rv['r']
         if r == 'use':
-            return self.operand(rv['o'], depth)
+            return self.operand(rv['o'], depth, pos)
         if r == 'ref' or r == 'rawptr':
-            inner = self.place(rv['p'], depth)
+            inner = self.place(rv['p'], depth, pos)
             if inner[0] == 'deref':
                 # &*x == x (reborrow)
                 return inner[1]
             return ('ref', inner)
         if r == 'bin':
-            return ('bin', rv['op'], self.operand(rv['a'], depth), self.operand(rv['b'], depth))
+            return ('bin', rv['op'], self.operand(rv['a'], depth, pos), self.operand(rv['b'], depth, pos))
         if r == 'un':
             if rv['op'] == 'PtrMetadata':
-                return ('len', self.operand(rv['o'], depth))
-            return ('un', rv['op'], self.operand(rv['o'], depth))
+                return ('len', self.operand(rv['o'], depth, pos))
+            return ('un', rv['op'], self.operand(rv['o'], depth, pos))
         if r == 'cast':
-            return ('cast', rv['ty'], self.operand(rv['o'], depth))
+            return ('cast', rv['ty'], self.operand(rv['o'], depth, pos))
         if r == 'discr':
-            return ('discr', self.place(rv['p'], depth))
+            return ('discr', self.place(rv['p'], depth, pos))
         if r == 'agg':
             kind = rv.get('kind')
             if kind == 'adt':
                 kind = 'adt:%s::%s' % (last_seg(rv['adt']), rv['variant_name'])
-            return ('agg', kind, [self.operand(o, depth) for o in rv['ops']])
+            return ('agg', kind, [self.operand(o, depth, pos) for o in rv['ops']])
         if r == 'repeat':
-            return ('repeat', self.operand(rv['o'], depth), rv.get('n'))
+            return ('repeat', self.operand(rv['o'], depth, pos), rv.get('n'))
         return ('unknown',)
 
 
@@ -823,9 +903,24 @@ def expr_walk(e):
                 stack.extend(y)
 
 
+_ES_CACHE = {}
+
+
 def expr_str(e, depth=0):
     if not isinstance(e, tuple) or depth > 12:
         return '…' if depth > 12 else str(e)
+    ck = (id(e), depth)
+    hit = _ES_CACHE.get(ck)
+    if hit is not None and hit[0] is e:
+        return hit[1]
+    r = _expr_str(e, depth)
+    if len(_ES_CACHE) > 400000:
+        _ES_CACHE.clear()
+    _ES_CACHE[ck] = (e, r)
+    return r
+
+
+def _expr_str(e, depth=0):
     k = e[0]
     s = lambda x: expr_str(x, depth + 1)
     if k == 'const':
@@ -951,7 +1046,7 @@ def guards_of(fn, blk, prov=None):
         need_f = not reachable_without_edge(fn, blk, (s, f))
         if need_t == need_f:
             continue
-        cond = prov.operand(fn.blocks[s]['term']['discr'])
+        cond = prov.operand(fn.blocks[s]['term']['discr'], 0, '%d:T' % s)
         yield s, need_t, cond
 
 
